@@ -322,7 +322,12 @@ func normalizeToken(in string) string {
 	// are not exact match on the token.
 	// Normalizing URLs from https to http is an example of a fix applied
 	// here.
-	return strings.ReplaceAll(in, "https", "http")
+	// Removing an "s" can bring the next one up ("httpss"), so repeat until
+	// nothing is left to rewrite: tokenizing the result again must not change it.
+	for strings.Contains(in, "https") {
+		in = strings.ReplaceAll(in, "https", "http")
+	}
+	return in
 }
 
 func flushBuf(pos int, obuf []byte, normalizeWord bool, ld *dictionary) tokenID {
@@ -375,7 +380,11 @@ func cleanupToken(pos int, in string, normalizeWord bool) string {
 		}
 	}
 
-	tok := out.String()
+	// Stripping the punctuation out of a URL can bring an "s" next to the
+	// scheme ("http://spdx.org" is cleaned to "httpspdxorg"). Rewrite the scheme
+	// once more, as normalizeToken would do if it saw the cleaned word, so that
+	// tokenizing the cleaned word again does not change it.
+	tok := normalizeToken(out.String())
 	if !normalizeWord {
 		return tok
 	}
